@@ -20,6 +20,8 @@ RULE = ('Hypothesis draws the state dimension (1..3), snapshot count m (6..14), 
         'simple spectra K xi_k = lambda_k xi_k (scale-free); batch call == single calls (eigenvalues and dense eigentensors); '
         'returned tensors consistent. Non-trivial: a list of pairs, random-subset index sets, >= 2 modes, rank-deficient Psi_x, or '
         'the HOCUR variant.')
+RULE += (' ' + 'Added classes: extra outputs ef_tf / st_tf, basis objects used before, coordinate-function bases on data of size 1e-9 ... 1e3, two amplitudes in one data matrix, binding rank caps for the HOCUR variant (judged by repeatability and batch == single only).')
+
 ASSUMPTIONS = [
     'oracle: numpy.linalg.svd / eig on the explicitly built transformed data matrix (c15.psi_ref)',
     'guard bands (cases discarded otherwise): no singular-value ratio of Psi_x within a factor 3 of the 1e-3 cut; no singular-value '
@@ -83,6 +85,9 @@ def amuset_case(draw):
             # for a pair in a list is still the result for that pair alone, and a second identical call returns the same)
             # data in other units (coordinates of size 1e-7 or 1e3): every cut is relative, the oracle is computed from the same data
             'x_scale_exp': (draw(st.sampled_from([-9, -7, -7, 3, 0])) if homogeneous else draw(st.sampled_from([0, 0, 0, -7, -4, 3]))) if form == 'float' else 0,
+            # two trajectories of different amplitude stored in one data matrix: the second half of the snapshots is smaller by 8 / 32
+            # (the cut for a pair of index sets is relative to the snapshots it selects)
+            'amplitude_split': draw(st.sampled_from([None, 8.0, 32.0])) if (homogeneous and form == 'float') else None,
             'hocur_cap': draw(st.sampled_from([None, None, None, 2, 3, 4])) if variant == 'hocur' else None}
 
 
@@ -134,6 +139,9 @@ def body(c):
     x = c15.data(c)
     if c.get('x_scale_exp', 0) and c.get('data_form', 'float') == 'float':
         x = np.asarray(x, dtype=float) * 10.0 ** c['x_scale_exp']
+    if c.get('amplitude_split') and c.get('data_form', 'float') == 'float':
+        x = np.array(x, dtype=float)
+        x[:, c['m'] // 2:] /= c['amplitude_split']
     m = c['m']
     phi = [[c15.make_fn(s) for s in f] for f in c['phi']]
     nmodes = [len(f) for f in phi]
@@ -187,6 +195,8 @@ def body(c):
         lab.add('data_' + c['data_form'])
     if c.get('x_scale_exp', 0) and c.get('data_form', 'float') == 'float':
         lab.add('rescaled_data')
+    if c.get('amplitude_split') and c.get('data_form', 'float') == 'float':
+        lab.add('two_amplitudes_in_one_data_matrix')
     if c['variant'] == 'hosvd' and c.get('extras', 'none') != 'none':
         lab.add('extra_outputs_' + c['extras'])
     if any(s_['family'] in c15.USER_FAMS for f in c['phi'] for s_ in f):
